@@ -4,10 +4,12 @@
 (* initial placement and activity, every outcome of every random choice (free booleans, restricted by  *)
 (* MUST / MAY at the extreme levels HMode / AL / RL).  Hist = TRUE keeps the histories for MaxIt        *)
 (* iterations; Hist = FALSE forgets them after every step (the step assertions have seen them) and the  *)
-(* model runs for ever.  Mutant # "none" switches a fault of GAM!Effect on; Control # "none" asserts a  *)
+(* model runs for ever.  Attrs = "all": every attribute vector, "same": all agents alike.               *)
+(* Dirs: the quarter turns a move may take (a subset of 0..3; two of them reach every placement).       *)
+(* Mutant # "none" switches a fault of GAM!Effect on; Control # "none" asserts a  *)
 (* statement that the code does NOT promise (TLC must refute it).                                       *)
 EXTENDS GAM
-CONSTANTS N, P, R2N, R2D, V, HMode, AL, RL, MaxIt, Hist, Mutant, Control
+CONSTANTS N, P, R2N, R2D, V, HMode, AL, RL, MaxIt, Hist, Mutant, Control, Attrs, Dirs
 VARIABLES st, par
 vars == <<st, par>>
 
@@ -15,17 +17,18 @@ Grid == (0..(P - 1)) \X (0..(P - 1))
 Ag == 1..N
 Keys1 == {"00", "01", "10", "11"}
 Keys2 == {"000", "001", "011", "100", "101", "111"}
-\* the documented default (h = 1): same attribute joins, a different one never does
-HLevel(k) == IF HMode = "mid" THEN "mid"
-             ELSE IF \A x \in 1..Len(k) : k[x] = k[1] THEN "1" ELSE "0"
+\* HMode = "default": the documented default (h = 1): same attribute joins, a different one never does
 Same(k) == k \in {"00", "11", "000", "111"}
 World(attr) == [N |-> N, P |-> P, r2 |-> <<R2N, R2D>>, v2 |-> <<V * V, 1>>, attr |-> attr,
                 h1 |-> [k \in Keys1 |-> IF HMode = "mid" THEN "mid" ELSE IF Same(k) THEN "1" ELSE "0"],
                 h2 |-> [k \in Keys2 |-> IF HMode = "mid" THEN "mid" ELSE IF Same(k) THEN "1" ELSE "0"],
                 al |-> [i \in Ag |-> AL], rl |-> [i \in Ag |-> RL]]
 
-Init == /\ par \in {World(a) : a \in [Ag -> {"0", "1"}]}
-        /\ \E pos \in [Ag -> Grid], act \in [Ag -> BOOLEAN] :
+\* everything depends on differences of positions only (periodic box): states are kept up to translation,
+\* agent 1 at the origin (the step assertions see the untranslated successor)
+Norm(pos) == [i \in Ag |-> <<(pos[i][1] - pos[1][1] + P) % P, (pos[i][2] - pos[1][2] + P) % P>>]
+Init == /\ par \in {World(a) : a \in IF Attrs = "all" THEN [Ag -> {"0", "1"}] ELSE {[i \in Ag |-> "0"]}}
+        /\ \E pos \in {q \in [Ag -> Grid] : q[1] = <<0, 0>>}, act \in [Ag -> BOOLEAN] :
              st = [pos |-> pos, act |-> act, grp |-> [i \in Ag |-> IF act[i] THEN {{i}} ELSE {}],
                    it |-> 0, traj |-> {}, proj |-> {}, edges |-> {}]
 
@@ -42,7 +45,7 @@ ControlHolds(S, nbr, moved, Q) ==
     [] Control = "centre_keeps" -> CentreKeepsGroup(S, nbr, moved, Q)
     [] OTHER -> TRUE
 
-StepOK(S, nbr, moved, Q) ==
+StepOK(S, nbr, moved, Q) ==     \* Q.pos is not looked at here
   /\ Assert(AgentTransitions(S, nbr, par, moved, Q), <<"AgentTransitions", S, Q>>)
   /\ Assert(MustMoveIsolated(S, nbr, par, moved), <<"MustMoveIsolated", S, Q>>)
   /\ Assert(GroupsFormedNow(S, nbr, par, moved, Q), <<"GroupsFormedNow", S, Q>>)
@@ -50,10 +53,11 @@ StepOK(S, nbr, moved, Q) ==
   /\ Assert(RecordsAreGroups(S, Q, par), <<"RecordsAreGroups", S, Q>>)
   /\ Assert(GroupsAreRecorded(S, Q, par), <<"GroupsAreRecorded", S, Q>>)
   /\ Assert(\A r \in Q.traj \ S.traj : r[1] = S.it /\ \A o \in S.traj : o[1] <= r[1], <<"TimesNonDecreasing", S, Q>>)
-  /\ Assert(\A i \in Ag : IF i \in moved THEN AtMost(S.pos[i], Q.pos[i], P, par.v2) /\ (2 * V <= P => OnRadius(S.pos[i], Q.pos[i], P, par.v2))
-                          ELSE Q.pos[i] = S.pos[i], <<"MoveLength", S, Q>>)
   /\ Assert(Mutant # "none" \/ IsSuccessor(S, nbr, par, moved, Q), <<"IsSuccessor", S, Q>>)
   /\ Assert(ControlHolds(S, nbr, moved, Q), <<"Control", Control, S, Q>>)
+MoveOK(S, moved, pos2) ==
+  Assert(\A i \in Ag : IF i \in moved THEN AtMost(S.pos[i], pos2[i], P, par.v2) /\ (2 * V <= P => OnRadius(S.pos[i], pos2[i], P, par.v2))
+                        ELSE pos2[i] = S.pos[i], <<"MoveLength", S, pos2>>)
 
 Next ==
   /\ (Hist => st.it < MaxIt)
@@ -62,14 +66,15 @@ Next ==
      IN \E mv \in SUBSET Active(S, par), on \in SUBSET (Ag \ Active(S, par)), off \in SUBSET {i \in Active(S, par) : nbr[i] = {}} :
         \E c \in Choices(S, nbr, par, mv, on, off) :
           /\ LegalSwitches(S, nbr, par, c)
-          /\ \E dir \in [mv -> 0..3] :
-               LET E == Effect(S, nbr, par, c, Mutant)
-                   pos2 == [i \in Ag |-> IF i \in mv THEN StepTo(S.pos[i], dir[i], V, P) ELSE S.pos[i]]
-                   Q == [pos |-> pos2, act |-> E.act, grp |-> E.grp, it |-> S.it,
-                         traj |-> E.traj, proj |-> E.proj, edges |-> E.edges]
-               IN /\ StepOK(S, nbr, mv, Q)
-                  /\ st' = IF Hist THEN [Q EXCEPT !.it = S.it + 1]
-                           ELSE [Q EXCEPT !.traj = {}, !.proj = {}, !.edges = {}]
+          /\ LET E == Effect(S, nbr, par, c, Mutant)
+                 Q == [pos |-> S.pos, act |-> E.act, grp |-> E.grp, it |-> S.it,
+                       traj |-> E.traj, proj |-> E.proj, edges |-> E.edges]
+             IN /\ StepOK(S, nbr, mv, Q)
+                /\ \E dir \in [mv -> Dirs] :
+                     LET pos2 == [i \in Ag |-> IF i \in mv THEN StepTo(S.pos[i], dir[i], V, P) ELSE S.pos[i]]
+                     IN /\ MoveOK(S, mv, pos2)
+                        /\ st' = IF Hist THEN [Q EXCEPT !.it = S.it + 1, !.pos = Norm(pos2)]
+                                 ELSE [Q EXCEPT !.traj = {}, !.proj = {}, !.edges = {}, !.pos = Norm(pos2)]
   /\ UNCHANGED par
 
 \* ---- invariants
